@@ -1046,6 +1046,9 @@ func (cfg *Config) glob(base, pat string) ([]string, error) {
 			}
 			continue
 		case !pattern.HasMeta(part, 0):
+			// The element names itself, once its escapes are removed;
+			// such as the directory "a*b" in the word "a*b"/*.
+			part := internal.UnescapePattern(part)
 			var newMatches []string
 			for _, dir := range matches {
 				match := dir
